@@ -5,7 +5,7 @@ import numpy as np
 from ..runner import Acc, HarnessError
 from ..refmodel import Fmt
 from .. import alphabet as al
-from ..common import Fxp, fx, codes, flags, fmt_of, reset_class_state, build
+from ..common import Fxp, fx, codes, flags, fmt_of, reset_class_state, build, AGED
 
 ID = 'C15'
 RULE = ('cases = (shape, format, fill pattern, function, call route {numpy function, method}, axis); the result must be an Fxp whose exact values '
@@ -80,6 +80,8 @@ def calls(shape):
     out.append(('sort', 'method', {'axis': -1}))
     for route in ('np', 'method'):
         out.append(('clip', route, {}))
+        for b in ('outside', 'neglow', 'ints'):
+            out.append(('clip', route, {'b': b}))
         out.append(('transpose', route, {}))
     out.append(('T', 'method', {}))
     if nd == 2:
@@ -92,10 +94,26 @@ def calls(shape):
     return out
 
 
+def clip_bounds(f, b):
+    """bounds in LSBs: default inside the range on both sides; 'outside' beyond both ends (inactive); 'neglow' a negative lower bound
+    also for unsigned formats (inactive there); 'ints' plain Python integers"""
+    if b == 'outside':
+        return f.lo - 3, f.hi + 3
+    if b == 'neglow':
+        return -(f.hi // 2) - 1, f.hi // 2
+    if b == 'ints':
+        return None
+    return f.lo // 2, f.hi // 2
+
+
 def run_call(fn, route, kw, x, f):
     lsb = 2.0 ** -f.n_frac
     if fn == 'clip':
-        a_min, a_max = (f.lo // 2) * lsb, (f.hi // 2) * lsb
+        cb = clip_bounds(f, kw.get('b'))
+        if cb is None:
+            a_min, a_max = -1, 1
+        else:
+            a_min, a_max = cb[0] * lsb, cb[1] * lsb
         return np.clip(x, a_min, a_max) if route == 'np' else x.clip(a_min, a_max)
     if fn == 'T':
         return x.T
@@ -111,7 +129,8 @@ def run_call(fn, route, kw, x, f):
 def oracle(fn, kw, fa, f):
     if fn == 'clip':
         lsb = Fraction(2) ** -f.n_frac
-        a_min, a_max = (f.lo // 2) * lsb, (f.hi // 2) * lsb
+        cb = clip_bounds(f, kw.get('b'))
+        a_min, a_max = (Fraction(-1), Fraction(1)) if cb is None else (cb[0] * lsb, cb[1] * lsb)
         out = np.empty(fa.shape, dtype=object)
         for idx in np.ndindex(fa.shape):
             out[idx] = min(max(fa[idx], a_min), a_max)
@@ -242,16 +261,17 @@ def judge_array_cfg(acc, f, shape, cs, part):
                     acc.outcome('array_cfg_ok')
 
 
-def judge_dot(acc, fxm, fym, sx, sy, xs, ys, fn, route, part):
-    case = {'part': part, 'fx': list(fxm), 'fy': list(fym), 'sx': list(sx), 'sy': list(sy), 'xs': list(xs), 'ys': list(ys), 'fn': fn, 'route': route}
+def judge_dot(acc, fxm, fym, sx, sy, xs, ys, fn, route, part, by='raw'):
+    case = {'part': part, 'fx': list(fxm), 'fy': list(fym), 'sx': list(sx), 'sy': list(sy), 'xs': list(xs), 'ys': list(ys), 'fn': fn, 'route': route, 'by': by}
+    acc.dim('built_by', by)
     acc.evaluations += 1
     acc.transitions += 1
     acc.dim('fn', fn)
     acc.dim('route', route)
     acc.nontrivial += 1
     try:
-        x = Fxp(np.array(xs, dtype=np.int64).reshape(sx), fxm.signed, fxm.n_word, fxm.n_frac, raw=True)
-        y = Fxp(np.array(ys, dtype=np.int64).reshape(sy), fym.signed, fym.n_word, fym.n_frac, raw=True)
+        x = build(fxm, xs, tuple(sx), by)
+        y = build(fym, ys, tuple(sy), by)
         if fn == 'dot':
             z = np.dot(x, y) if route == 'np' else x.dot(y)
         else:
@@ -297,7 +317,7 @@ def shards(tier, seed):
     for i in range(len(fs)):
         for si in range(len(SHAPES)):
             out.append({'part': 'R', 'fi': i, 'si': si, 'full': tier != 'quick', 'seed': seed})
-        out.append({'part': 'D', 'fi': i})
+        out.append({'part': 'D', 'fi': i, '_cost': 10})
     return out
 
 
@@ -313,12 +333,16 @@ def run_shard(sh):
         for cs in (fl[0], fl[-1], fl[-2]):
             judge_inplace(acc, f, shape, cs, 'R')
             judge_array_cfg(acc, f, shape, cs, 'R')
+        nth = sh['fi'] + sh['si']
         for cs in fl:
             res = {}
             for fn, route, kw in calls(shape):
                 if route == 'np':
                     judge(acc, f, shape, cs, fn, route, kw, 'R', 'value')
                 r = judge(acc, f, shape, cs, fn, route, kw, 'R')
+                nth += 1
+                if cs is fl[-1] and (nth % 3 == 0 or f.n_word <= 2):
+                    judge(acc, f, shape, cs, fn, route, kw, 'R', AGED[(nth // 3) % len(AGED)])       # operand reached through a history
                 key = (fn, tuple(sorted(kw.items())))
                 if r is not None and fn != 'sort':
                     if key in res and res[key] != r:
@@ -340,8 +364,11 @@ def run_shard(sh):
                         ys = [{'lo': fym.lo, 'hi': fym.hi, 'lohi': (fym.lo, fym.hi)[i % 2]}[py] for i in range(ny)]
                         judge_dot(acc, f, fym, sx, sy, xs, ys, 'dot', 'np', 'D')
                         judge_dot(acc, f, fym, sx, sy, xs, ys, 'dot', 'method', 'D')
-                        if len(sx) == 2 or len(sy) == 2 or True:
-                            judge_dot(acc, f, fym, sx, sy, xs, ys, 'matmul', 'np', 'D')
+                        judge_dot(acc, f, fym, sx, sy, xs, ys, 'matmul', 'np', 'D')
+                        if px == 'lohi' and py == 'lohi' and (sh['fi'] + fs.index(fym) + DOT_SHAPES.index((sx, sy))) % 5 == 0:
+                            how = AGED[(fs.index(fym) + 2 * DOT_SHAPES.index((sx, sy))) % len(AGED)]
+                            judge_dot(acc, f, fym, sx, sy, xs, ys, 'matmul', 'np', 'D', how)       # operands reached through a history
+                            judge_dot(acc, f, fym, sx, sy, xs, ys, 'dot', 'method', 'D', how)
     return acc
 
 
@@ -355,7 +382,7 @@ def replay(case):
         judge_inplace(acc, Fmt(*case['fmt']), tuple(case['shape']), case['codes'], case['part'])
         return [v for v in acc.violations if v['case'].get('fn') == case['fn']]
     if 'fx' in case:
-        judge_dot(acc, Fmt(*case['fx']), Fmt(*case['fy']), tuple(case['sx']), tuple(case['sy']), case['xs'], case['ys'], case['fn'], case['route'], case['part'])
+        judge_dot(acc, Fmt(*case['fx']), Fmt(*case['fy']), tuple(case['sx']), tuple(case['sy']), case['xs'], case['ys'], case['fn'], case['route'], case['part'], case.get('by', 'raw'))
     else:
         f = Fmt(*case['fmt'])
         shape = tuple(case['shape'])
